@@ -73,7 +73,7 @@ PROPS = dict(
         assumptions=['BOUNDED stand-in: Kani cannot compile any harness in which Router::new is reachable (compiler ICE, measured) and the handler bodies are outside the Verus subset, so the routing core is explored natively over a stated finite space'],
     ),
     C06=dict(
-        verus=['acklog', 'tracker'], kani=[],
+        verus=['acklog', 'tracker'], kani=[], native=['rumqttd'],
         scope='rumqttd AckLog::{new,connack,suback,puback,pubrec,pubrel,pubcomp,pingresp,unsuback}: each appends exactly the given ack at the back of the reply queue (FIFO), pubrec holds the QoS 2 publish, pubcomp releases the oldest held publish exactly once; Tracker::try_ready wake-up table',
         residual='the per-packet registration in Router::handle_device_payload (which ack is registered for which packet, one SUBACK code per filter) and ack_device_data (flush to the right Outgoing) are Router methods: Kani cannot build a Router (compiler ICE), Verus cannot take the bodies (drain iterators, closures, retain)',
         assumptions=['stand-in declarations for the packet structs AckLog only moves (never inspects)'],
